@@ -193,15 +193,24 @@ fn shm_exec(p: P, keys: &Keys) -> ExecEnd {
         Ok(x) => x,
         Err(e) => vcommon::harness_error(&e),
     };
-    // Reader channels are pool keys 0..readers, the writer's toys use the rest.
+    // Reader channels are pool keys 0..readers, the writer's toys use the rest. A drawn number
+    // of the writer's channels is added *before* the readers' channels, so that a reader's
+    // channel can be the last entry of the table and be moved by the removal of an earlier one.
     let mut ids: Vec<LocalChannelId> = Vec::new();
+    let mut other_ids: Vec<LocalChannelId> = Vec::new();
+    let before = sim::rand_below(p.others as u64 + 1) as usize;
+    let add_other = |j: usize, other_ids: &mut Vec<LocalChannelId>| {
+        let k = p.readers + (j % (keys.len() - p.readers));
+        other_ids.push(writer.add(Shm::open_side(&keys[k]), keys[k].label, keys[k].sealer).expect("add other channel"));
+    };
+    for j in 0..before {
+        add_other(j, &mut other_ids);
+    }
     for k in 0..p.readers {
         ids.push(writer.add(Shm::seal_side(&keys[k]), keys[k].label, keys[k].opener).expect("add reader channel"));
     }
-    let mut other_ids: Vec<LocalChannelId> = Vec::new();
-    for j in 0..p.others {
-        let k = p.readers + (j % (keys.len() - p.readers));
-        other_ids.push(writer.add(Shm::open_side(&keys[k]), keys[k].label, keys[k].sealer).expect("add other channel"));
+    for j in before..p.others {
+        add_other(j, &mut other_ids);
     }
     let results: Arc<StdMutex<Vec<Sealed>>> = Arc::new(StdMutex::new(vec![Vec::new(); p.readers]));
 
@@ -227,7 +236,9 @@ fn shm_exec(p: P, keys: &Keys) -> ExecEnd {
                         }
                     }
                     1 => {
-                        if let Some(id) = mine.pop() {
+                        // any of the writer's own channels, not only the youngest
+                        let pick = if mine.is_empty() { None } else { Some(mine.remove(sim::rand_below(mine.len() as u64) as usize)) };
+                        if let Some(id) = pick {
                             sim::log_event(t, "w.remove");
                             if let Err(e) = writer.remove(id) {
                                 sim::violation("C40.writer-error", "writer-error", format!("remove failed: {e}"));
